@@ -354,6 +354,7 @@ func runC13Hist(t *testing.T, c CacheHistCase) (*h.Violation, h.Info) {
 			}
 			info.Class("a-poll-that-fails-for-one-declared-secret")
 			lastKind = o.Kind
+			checked = cache.NumWrites() // (a document written during this poll was judged here, against the state it was written in)
 			continue
 		case "restart":
 			st.Close() // the poller stops: the cache must be flushed with current stamps
